@@ -4,8 +4,11 @@ Model/Plugin — the plugin containers and the per-message hook stages of telepo
 Go ↔ Lean
   plugin.go  PluginContainer{left,middle,right,embedded all-list,refreshTree}  ↔ `Peer.left/right`, `Cont`
              newPluginContainer / cloneAndAppendMiddle                         ↔ `Peer.new` / `clone`
+               (the clone's `middle` is a fresh slice: copy of the parent's, then its own plugins —
+                no container shares a backing array with another, so plain lists model the slices)
              refresh (unique-name check, Fatalf = os.Exit)                      ↔ `refresh` (`none` = process exit)
-             refreshTree (own refresh, then the containers cloned from it)      ↔ `refreshTree` (depth ≤ 1)
+             refreshTree (own refresh, then the refreshTree of every container cloned from it)
+                                                                               ↔ `refreshTree` (the whole tree)
              AppendLeft / AppendRight / Remove                                  ↔ `appendLeft` / `appendRight` / `remove`
              every per-message stage function                                  ↔ `runStage`
   router.go  SubRoute / Route*Func / SetUnknownCall / SetUnknownPush, getCall / getPush
@@ -91,17 +94,13 @@ def runStage (V : Verd) (s : Stage) : List Plugin → List Firing × Int
 
 /-! ### containers -/
 
-/-- one `*PluginContainer`. `depth` 0 = the peer's global container, 1 = cloned from it, … —
-    the root's `refreshTree` closure calls `refresh` on exactly the containers of depth ≤ 1.
-    `middle.plugins` is a Go slice: `arr` names its backing array, `cap` its capacity, and
-    `middle` is what is visible through it *now* (slices of different containers can share an
-    array: `append(p.middle.GetAll(), plugins...)` in `cloneAndAppendMiddle`). -/
+/-- one `*PluginContainer`. Every container other than the global one (index 0) is cloned,
+    directly or through other clones, from the global one, so the root's `refreshTree` reaches it.
+    `middle.plugins` is a Go slice with its own backing array (`cloneAndAppendMiddle` allocates it),
+    so its content is only ever what was put there at creation. -/
 structure Cont where
-  depth  : Nat
   chain  : List Plugin      -- ghost: the plugins registered along the route (parent's chain ++ own)
-  middle : List Plugin      -- `middle.plugins` as visible through this container's slice
-  arr    : Nat              -- backing array of `middle.plugins`
-  cap    : Nat              -- `cap(middle.plugins)`
+  middle : List Plugin      -- `middle.plugins`
   all    : List Plugin      -- embedded `pluginSingleContainer.plugins`: what the stages iterate
 deriving DecidableEq, Repr, Inhabited
 
@@ -118,7 +117,7 @@ deriving DecidableEq, Repr, Inhabited
 
 /-- `NewPeer` before its `AppendLeft(globalLeftPlugin...)`: `newPluginContainer()` + `newRouter`. -/
 def Peer.new : Peer :=
-  { left := [], right := [], conts := [{ depth := 0, chain := [], middle := [], arr := 0, cap := 0, all := [] }], groups := [0],
+  { left := [], right := [], conts := [{ chain := [], middle := [], all := [] }], groups := [0],
     calls := [], pushes := [], unkCall := none, unkPush := none }
 
 /-- the `m[plugin.Name()]` scan of `refresh`: no name occurs twice. -/
@@ -133,13 +132,13 @@ def refresh (l r : List Plugin) (c : Cont) : Option Cont :=
   let a := l ++ c.middle ++ r
   if dupFree (names a) then some { c with all := a } else none
 
-/-- the root's `refreshTree`: the root's own `refresh`, then — in creation order — `refresh` of
-    every container that was cloned from the root. Containers cloned from those are NOT visited
-    (the closure chains `newPluginContainer.refresh()`, not `newPluginContainer.refreshTree()`). -/
+/-- the root's `refreshTree`: the root's own `refresh`, then the `refreshTree` of every container
+    cloned from it, each of which does the same for its own clones — so every container of the
+    peer is refreshed (depth first; the order only decides which duplicate name `Fatalf` reports). -/
 def refreshConts (l r : List Plugin) : List Cont → Option (List Cont)
   | [] => some []
   | c :: cs =>
-    match (if c.depth ≤ 1 then refresh l r c else some c), refreshConts l r cs with
+    match refresh l r c, refreshConts l r cs with
     | some c', some cs' => some (c' :: cs')
     | _, _ => none
 
@@ -147,45 +146,16 @@ def refreshTree (P : Peer) : Option Peer :=
   (refreshConts P.left P.right P.conts).map (fun cs => { P with conts := cs })
 
 def contAt (P : Peer) (i : Nat) : Cont :=
-  P.conts.getD i { depth := 0, chain := [], middle := [], arr := 0, cap := 0, all := [] }
+  P.conts.getD i { chain := [], middle := [], all := [] }
 
-/-- `nextslicecap` of the Go runtime (growslice) for old capacity `c` and needed length `n`. -/
-def nextCap (c n : Nat) : Nat :=
-  if n > c + c then n else if c < 256 then c + c else c + (c + 768) / 4
-
-/-- `roundupsize` for 16-byte elements (an interface value), in elements: the malloc size classes
-    of the pinned toolchain up to 2 KiB; larger lengths are not rounded by this model. -/
-def roundCap (n : Nat) : Nat :=
-  match [1, 2, 3, 4, 5, 6, 7, 8, 9, 10, 11, 12, 13, 14, 15, 16, 18, 20, 22, 24, 26, 28, 30, 32,
-         36, 40, 44, 48, 56, 64, 72, 80, 88, 96, 112, 128].find? (n ≤ ·) with
-  | some c => c
-  | none => n
-
-/-- writing `ps` into slots `n, n+1, …` of a backing array, as seen through a slice `l`. -/
-def overwrite (l : List Plugin) (n : Nat) (ps : List Plugin) : List Plugin :=
-  l.take n ++ ps.take (l.length - n) ++ l.drop (n + ps.length)
-
-/-- effect of an in-place `append` at offset `n` of array `a` on another container's view. -/
-def clobber (a n : Nat) (ps : List Plugin) (d : Cont) : Cont :=
-  if d.arr = a ∧ n < d.middle.length then { d with middle := overwrite d.middle n ps } else d
-
-/-- `append(parent.middle.plugins, ps...)` fits the parent's spare capacity: written in place. -/
-def inPlace (par : Cont) (ps : List Plugin) : Bool :=
-  !ps.isEmpty && par.middle.length + ps.length ≤ par.cap
-
-/-- `cloneAndAppendMiddle` on container `i`: new container (index = old `conts.length`) with
-    `middle = append(parent.middle, ps...)`, sharing `left`/`right`, refreshed once at creation.
-    As coded the `append` re-uses the parent's backing array when it has spare capacity, which
-    overwrites the slot(s) that an earlier sibling's slice also covers. -/
+/-- `cloneAndAppendMiddle` on container `i`: new container (index = old `conts.length`) whose
+    `middle` is a freshly allocated slice holding the parent's `middle` followed by `ps`, sharing
+    `left`/`right`, refreshed once at creation. No existing container is touched. -/
 def clone (P : Peer) (i : Nat) (ps : List Plugin) : Option (Peer × Nat) :=
   let par := contAt P i
-  let n := par.middle.length
-  let conts := if inPlace par ps then P.conts.map (clobber par.arr n ps) else P.conts
-  let arr := if ps.isEmpty || inPlace par ps then par.arr else P.conts.length
-  let cap := if ps.isEmpty || inPlace par ps then par.cap else roundCap (nextCap par.cap (n + ps.length))
   match refresh P.left P.right
-      { depth := par.depth + 1, chain := par.chain ++ ps, middle := par.middle ++ ps, arr := arr, cap := cap, all := [] } with
-  | some c => some ({ P with conts := conts ++ [c] }, P.conts.length)
+      { chain := par.chain ++ ps, middle := par.middle ++ ps, all := [] } with
+  | some c => some ({ P with conts := P.conts ++ [c] }, P.conts.length)
   | none => none
 
 /-- `pluginSingleContainer.remove`: delete the first plugin with that name (error if absent). -/
@@ -208,14 +178,6 @@ deriving Repr, Inhabited
 /-- operations on the global container (as opposed to registering groups / handlers). -/
 def Op.isGlobal : Op → Bool
   | .appendLeft _ | .appendRight _ | .remove _ => true
-  | _ => false
-
-/-- routing operations of the shape the partial freshness theorem covers: sub-groups only directly
-    under the root router, at most 16 plugins per registration (the sizes for which a fresh Go
-    slice has no spare capacity). -/
-def Op.small : Op → Bool
-  | .subRoute g ps => g == 0 && ps.length ≤ 16
-  | .routeCall _ _ ps | .routePush _ _ ps | .unknownCall ps | .unknownPush ps => ps.length ≤ 16
   | _ => false
 
 def groupCont (P : Peer) (g : Nat) : Nat := P.groups.getD g 0
